@@ -677,7 +677,7 @@ class ConditionGroup(Contract):
     id = "C01.TextQueryBackend.convert_condition_group"
     target = f"{CB}:TextQueryBackend.convert_condition_group"
     props = ("C01", "C18")
-    cases = ("text", "text-that-looks-grouped", "deferred", "vanished", "no-template")
+    cases = ("text", "text-that-looks-grouped", "plain-text", "deferred", "vanished", "no-template")
 
     def args(self, I, case):
         idx = I.E.index
@@ -693,10 +693,14 @@ class ConditionGroup(Contract):
             conv = None
         elif case == "text-that-looks-grouped":
             conv = "(a=1 or a=2) or (b=3 or b=4)"
+        elif case == "plain-text":
+            conv = "a=1 or b=2"
         else:
             conv = I.fresh("converted", "str")
         I.E.summaries[f"{CB}:TextQueryBackend.convert_condition"] = lambda I2, so, a, k: conv
-        me = SObj(idx.lookup(f"{CB}:TextQueryBackend"), {"group_expression": None if case == "no-template" else SObj("Template", {"format": NativeFn("format", fmt), "__str__": NativeFn("__str__", lambda I2, a, k: "({expr})")})}, lazy=True)
+        concrete = case in ("text-that-looks-grouped", "plain-text")        # a real template text and a real converted text: evaluated as Python does
+        ge = None if case == "no-template" else "<{expr}>" if case == "plain-text" else "({expr})" if concrete else SObj("Template", {"format": NativeFn("format", fmt)})
+        me = SObj(idx.lookup(f"{CB}:TextQueryBackend"), {"group_expression": ge}, lazy=True)
         return {"self": me, "args": [SObj("Cond", {}), SObj("State", {})], "conv": conv, "calls": calls, "case": case}
 
     def post(self, I, inp, r):
@@ -705,6 +709,9 @@ class ConditionGroup(Contract):
         c.require(case != "no-template", "without group template: not supported")
         if case in ("deferred", "vanished"):
             c.require(r is inp["conv"] and calls == [], "deferred parts / vanished conditions pass through ungrouped")
+        elif case in ("text-that-looks-grouped", "plain-text"):
+            want = ("(" + inp["conv"] + ")") if case == "text-that-looks-grouped" else ("<" + inp["conv"] + ">")
+            c.require(r == want, f"the converted text inside the group template, always - also when it begins and ends like a group itself: {want!r} (got {r!r})")
         else:
             c.require(len(calls) == 1 and set(calls[0][0]) == {"expr"} and (calls[0][0]["expr"] is inp["conv"] or calls[0][0]["expr"] == inp["conv"]) and r is calls[0][1], "the converted text inside the group template, always")
 
